@@ -45,6 +45,7 @@ InitW(cap) ==
     postClose |-> 0,       \* events received after Close returned
     gonePaths |-> {},      \* paths whose watch ended by deletion / rename and that were not added again
     flags   |-> {},
+    seenCk  |-> {},        \* cookies whose Rename event has been received
     fog     |-> FALSE,     \* outcome no longer determined by the statements (see DESIGN): judge only crashes, blocking, leaks
     nontriv |-> {},        \* which non-trivial situations this watcher went through (evidence)
     bad     |-> <<>> ]
@@ -111,7 +112,7 @@ ApplyRec(ws, r, s, maxq) ==
       merged== ws.last.ino = r.ino /\ ws.last.m = r.m /\ ws.last.n = r.n
       min   == IF e.st # "live" \/ merged \/ ws.ovf \/ pst = "other" THEN 0 ELSE 1
       ent   == [seq |-> s, ino |-> r.ino, name |-> name, op |-> op, from |-> from,
-                min |-> IF pst = "live" THEN 0 ELSE min, ovf |-> ws.ovf, self |-> (r.n = ""), sup |-> (pst = "live")]
+                min |-> IF pst = "live" THEN 0 ELSE min, ovf |-> ws.ovf, self |-> (r.n = ""), sup |-> (pst = "live"), ck |-> r.ck]
       queued== vis # 0 \/ ign
       w1 == IF op = 0 \/ (mself /\ e.rec) THEN ws ELSE [ws EXCEPT !.exp = Append(@, ent)]
       w2 == IF HasBit(vis, IN_MOVED_FROM) /\ r.ck # 0
@@ -143,13 +144,13 @@ Match(x, v) == x.name = v.name /\ x.op = v.op
 (* mandatory entry.  More than one candidate means the trace does not        *)
 (* determine the matching; the trace specification then branches and TLC     *)
 (* searches for a matching without violation.                                *)
-RECURSIVE Cands(_, _, _, _, _)
-Cands(ws, v, i, lim, haveOpt) ==
+RECURSIVE Cands(_, _, _, _, _, _)
+Cands(ws, v, i, lim, haveOpt, sup) ==
   IF i > Len(ws.exp) \/ i > lim THEN {}
   ELSE LET x == ws.exp[i] IN
        IF x.min = 1 THEN (IF Match(x, v) THEN {i} ELSE {})
-       ELSE IF Match(x, v) /\ ~haveOpt THEN {i} \cup Cands(ws, v, i + 1, lim, TRUE)
-       ELSE Cands(ws, v, i + 1, lim, haveOpt)
+       ELSE IF Match(x, v) /\ ~haveOpt /\ x.sup = sup THEN {i} \cup Cands(ws, v, i + 1, lim, TRUE, sup)
+       ELSE Cands(ws, v, i + 1, lim, haveOpt, sup)
 
 RECURSIVE FirstMand(_, _, _)
 FirstMand(ws, i, lim) ==
@@ -179,8 +180,12 @@ CloseLag(ws, seq) ==
 Consume(ws, v, j) ==
   LET x  == ws.exp[j]
       w1 == PassOver(ws, j)
-      w2 == IF x.from # v.from
-            THEN Bad(w1, {"C11"}, IF v.from = <<>> THEN "renamed_from_missing" ELSE "renamed_from_wrong") ELSE w1
+      \* the old name is owed only if the Rename half of the same move was delivered (it may have been dropped
+      \* legitimately together with its watch)
+      w2 == IF v.from # <<>> /\ v.from # x.from THEN Bad(w1, {"C11"}, "renamed_from_wrong")
+            ELSE IF v.from = <<>> /\ x.from # <<>> /\ x.ck \in ws.seenCk THEN Bad(w1, {"C11"}, "renamed_from_missing")
+            ELSE IF HasBit(x.op, OpRename) /\ x.ck # 0 THEN [w1 EXCEPT !.seenCk = @ \cup {x.ck}]
+            ELSE w1
       w3 == IF x.sup THEN Bad(w2, {"C09", "C02"}, "remove_reported_although_parent_listed") ELSE w2
       w4 == CloseLag(w3, x.seq)
   IN IF x.from # <<>> THEN Note(w4, "rename_pair") ELSE w4
@@ -192,7 +197,8 @@ RecvEv(ws0, v) ==
   ELSE IF ws.fog THEN {ws}
   ELSE
   LET lim == ws.eh + ScanWindow
-      C   == Cands(ws, v, ws.eh + 1, lim, FALSE)
+      C0  == Cands(ws, v, ws.eh + 1, lim, FALSE, FALSE)
+      C   == IF C0 # {} THEN C0 ELSE Cands(ws, v, ws.eh + 1, lim, FALSE, TRUE)   \* a suppressed entry only as last resort
   IN
   IF C # {} THEN {Consume(IF Cardinality(C) > 1 THEN Note(ws, "ambiguous_match") ELSE ws, v, j) : j \in C}
   ELSE
@@ -242,7 +248,7 @@ Settle(ws) ==
             THEN Bad(w1, {"C01", "C10"}, "overflow_not_reported") ELSE w1
       G  == {i \in DOMAIN ws.uw : ws.uw[i].st = "ending"}
   IN [w2 EXCEPT !.exp = <<>>, !.eh = 0, !.skipped = <<>>, !.last = NoRec, !.nq = 0, !.ovf = FALSE,
-                !.dropped = FALSE, !.gotOvf = 0, !.uw = Without(@, G), !.flags = {}]
+                !.dropped = FALSE, !.gotOvf = 0, !.uw = Without(@, G), !.flags = {}, !.seenCk = {}]
 
 ---------------------------------------------------------------------------
 (* API calls. *)
